@@ -7,7 +7,7 @@ open Lean PydraModel PydraModel.Roundtrip PydraModel.DriverUtil
  "inputs":[{"name":…,"attrs":[[attr, VAL],…]},…],"outputs":[…],"xor":[[name|null,…],…],
  "assignments":[{name: null|bool|"str"|{"unset":true}},…]}
  VAL = null | bool | int | "str" | {"strs":[…]} | {"reqs":[[[name, null|[…]],…],…]} | {"atom": tag}
- -> {"wf","ser_ok","unstructured":{"inputs":{name:[attr…]},"outputs":{…}},"structure":"ok"|"ValueError",
+ -> {"wf","ser_ok","unstructured":{"inputs":{name:[attr…]},"outputs":{…}},"order":{"inputs":[name…],"outputs":[name…]},"structure":"ok"|"ValueError",
      "diffs":[[field,attr],…],"shape_same":bool,"dict_mutated":bool,"second":"ok"|"ValueError"|null,
      "second_diffs":[…],"rules_diff":n, "argv": {"ok":[…]}|{"err":TAG}  (only with "values")}
  optional: "values": {name: null | SCALAR | [SCALAR…]}, "append": [STR…]   (SCALAR as in Drivers/Argv.lean)
@@ -151,7 +151,10 @@ def handle (j : Json) : Json :=
         | .error _ => pure none
       let dct := unstructureDef d
       let base : List (String × Json) := [("wf", Json.bool (decide (DefWF d))), ("ser_ok", Json.bool (decide (SerOKDef d))),
-                   ("unstructured", Json.mkObj [("inputs", keysJson dct.inputs), ("outputs", keysJson dct.outputs)])]
+                   ("unstructured", Json.mkObj [("inputs", keysJson dct.inputs), ("outputs", keysJson dct.outputs)]),
+                   -- the dictionaries are ordered: field order is part of what the round trip preserves
+                   ("order", Json.mkObj [("inputs", Json.arr (dct.inputs.map (fun p => Json.str p.1)).toArray),
+                                         ("outputs", Json.arr (dct.outputs.map (fun p => Json.str p.1)).toArray)])]
       match structureDict dct with
       | .error _ =>
         return Json.mkObj (base ++ [("structure", Json.str "ValueError"), ("diffs", Json.arr #[]), ("shape_same", Json.null),
